@@ -890,3 +890,79 @@ pub fn pick_index(sel: u16, len: usize) -> usize {
         ((sel as usize) * len) >> 16
     }
 }
+
+/// Result of a bounded libFuzzer campaign (thorough tiers of C03 / C16).
+pub struct FuzzOutcome {
+    pub execs: u64,
+    pub artifact: Option<PathBuf>,
+    pub note: String,
+}
+
+/// Builds (cargo +nightly fuzz build -s none) and runs one target of harness/fuzz for a fixed number
+/// of executions from a fresh corpus directory seeded with `seeds`.
+pub fn run_fuzz(target: &str, runs: u64, seed: u64, max_len: usize, seeds: &[Vec<u8>]) -> FuzzOutcome {
+    let root = verif_root();
+    let fuzz_dir = root.join("harness").join("fuzz");
+    let work = root.join("out").join("fuzz").join(format!("{}-{}", target, seed));
+    let _ = std::fs::remove_dir_all(&work);
+    let corpus = work.join("corpus");
+    let artifacts = work.join("artifacts");
+    let _ = std::fs::create_dir_all(&corpus);
+    let _ = std::fs::create_dir_all(&artifacts);
+    for (i, s) in seeds.iter().enumerate() {
+        let _ = std::fs::write(corpus.join(format!("seed-{:04}", i)), s);
+    }
+    let build = std::process::Command::new("cargo")
+        .args(["+nightly", "fuzz", "build", "-s", "none", target])
+        .current_dir(&fuzz_dir)
+        .env("CARGO_NET_OFFLINE", "true")
+        .output();
+    match build {
+        Ok(o) if o.status.success() => {}
+        Ok(o) => {
+            return FuzzOutcome { execs: 0, artifact: None, note: format!("fuzz build failed: {}", String::from_utf8_lossy(&o.stderr).lines().rev().take(5).collect::<Vec<_>>().join(" | ")) };
+        }
+        Err(e) => return FuzzOutcome { execs: 0, artifact: None, note: format!("cargo fuzz not runnable: {e}") },
+    }
+    let libfuzzer_seed = if seed % 0x7fff_ffff == 0 { 1 } else { seed % 0x7fff_ffff };
+    let out = std::process::Command::new("cargo")
+        .args(["+nightly", "fuzz", "run", "-s", "none", target])
+        .arg(&corpus)
+        .arg("--")
+        .arg(format!("-runs={}", runs))
+        .arg(format!("-seed={}", libfuzzer_seed))
+        .arg(format!("-max_len={}", max_len))
+        .arg("-len_control=0")
+        .arg(format!("-artifact_prefix={}/", artifacts.display()))
+        .current_dir(&fuzz_dir)
+        .env("CARGO_NET_OFFLINE", "true")
+        .output();
+    match out {
+        Ok(o) => {
+            let log = String::from_utf8_lossy(&o.stderr).to_string();
+            let mut execs = 0u64;
+            for l in log.lines() {
+                if let Some(rest) = l.strip_prefix("Done ") {
+                    execs = rest.split_whitespace().next().and_then(|x| x.parse().ok()).unwrap_or(0);
+                }
+                if let Some(p) = l.find("stat::number_of_executed_units:") {
+                    execs = l[p..].split_whitespace().nth(1).and_then(|x| x.parse().ok()).unwrap_or(execs);
+                }
+            }
+            let artifact = std::fs::read_dir(&artifacts).ok().and_then(|rd| rd.filter_map(|e| e.ok()).map(|e| e.path()).find(|p| p.file_name().map_or(false, |n| n.to_string_lossy().starts_with("crash-") || n.to_string_lossy().starts_with("timeout-"))));
+            if execs == 0 && artifact.is_none() {
+                // libFuzzer prints "#N" progress lines; take the largest as a lower bound
+                for l in log.lines() {
+                    if let Some(r) = l.strip_prefix('#') {
+                        if let Some(n) = r.split_whitespace().next().and_then(|x| x.parse::<u64>().ok()) {
+                            execs = execs.max(n);
+                        }
+                    }
+                }
+            }
+            let note = if artifact.is_some() { log.lines().filter(|l| l.contains("VIOLATION") || l.contains("panicked")).take(3).collect::<Vec<_>>().join(" | ") } else { String::new() };
+            FuzzOutcome { execs, artifact, note }
+        }
+        Err(e) => FuzzOutcome { execs: 0, artifact: None, note: format!("cargo fuzz run failed to start: {e}") },
+    }
+}
